@@ -300,7 +300,7 @@ def run(ctx):
     cuts = [st for st in ast.walk(body) if isinstance(st, ast.Assign) and len(st.targets) == 1 and norm(st.targets[0]) in vclass and _is_cut(st.value)]
     from ..core import enclosing_function as _ef5
     from .. import logic as _lg5
-    fn5 = _ef5(body)
+    fn5 = _ef5(body) or unpack_obj
     cfg5 = CFG(fn5)
     guarded = []
     for ct in cuts:
